@@ -8,6 +8,8 @@ for p in sorted(glob.glob('/verif/seeded/*/meta.json')):
     what = m['what'][:160].replace('|', '/')
     def verdict(v):
         v = v.lower()
+        if v.startswith('thorough'):
+            return 'detected by the THOROUGH tier only'
         return 'missed' if v.startswith('missed') else 'DETECTED'
     checks = ', '.join('%s: %s' % (k, verdict(v)) for k, v in det.items())
     b = m['breaks'] if isinstance(m['breaks'], str) else '/'.join(m['breaks'])
